@@ -632,6 +632,11 @@ func (z *E6) SetBytes(e []byte) error {
 
 // IsInSubGroup ensures GT/E6 is in correct subgroup
 func (z *E6) IsInSubGroup() bool {
+	// zero is not invertible: it is not an element of the multiplicative group (every equality
+	// checked below holds trivially for it)
+	if z.IsZero() {
+		return false
+	}
 	var tmp, a, _a, b E6
 	var t [6]E6
 
